@@ -1,0 +1,36 @@
+//! Verification hooks (feature `verif-hooks`): thin re-exports of private
+//! pure helpers so that an external harness can compare them with a model.
+//! Nothing here is compiled unless the feature is enabled.
+
+use std::ffi::OsString;
+use std::path::{Path, PathBuf};
+
+use super::logs;
+use super::paths::DoFile;
+use super::state::Stamp;
+
+/// All five fields of a [`DoFile`].
+pub fn dofile_fields(df: &DoFile) -> (PathBuf, OsString, PathBuf, PathBuf, OsString) {
+    (
+        df.do_dir.clone(),
+        df.do_file.clone(),
+        df.base_dir.clone(),
+        df.base_name.clone(),
+        df.ext.clone(),
+    )
+}
+
+/// `Stamp::detect_override` on two stamp strings.
+pub fn detect_override(s1: &str, s2: &str) -> bool {
+    Stamp::detect_override(&Stamp::from(s1.to_string()), &Stamp::from(s2.to_string()))
+}
+
+/// Format a structured log record the way `logs::meta` does.
+pub fn meta_format(kind: &str, pid: i32, timestamp: f64, text: &str) -> String {
+    logs::verif_meta_format(kind, pid, timestamp, text)
+}
+
+/// `state::realdirpath`.
+pub fn realdirpath(p: &Path) -> std::io::Result<PathBuf> {
+    super::state::verif_realdirpath(p)
+}
